@@ -52,7 +52,7 @@ func TestVerifC05(t *testing.T) {
 	rng := rand.New(rand.NewSource(int64(vEnvInt("VERIF_SEED", 1))))
 	budget := vEnvInt("VERIF_RUNS", 60)
 	full := os.Getenv("VERIF_FULL") != ""
-	mconds := []string{"dead_mysql", "dead_host", "fsro", "crashrec", "ok", "unreachable_from_manager", "dead_mysync"}
+	mconds := []string{"dead_mysql", "dead_host", "fsro", "crashrec", "ok", "unreachable_from_manager", "dead_mysync", "crashrec_dead_mysql"}
 	repls := []string{"both_ok", "one_stopped", "both_stopped"}
 	maints := []string{"none", "none", "light", "full"}
 	lasts := []string{"none", "auto_recent", "auto_old", "manual_recent"}
@@ -150,7 +150,8 @@ func TestVerifC05(t *testing.T) {
 		}{}
 		masterBroken := func(s *vSim) {
 			switch b.mcond {
-			case "dead_mysql":
+			case "dead_mysql", "crashrec_dead_mysql":
+				// (crashrec_dead_mysql: the server had been started through crash recovery, its record says so, and now dies)
 				s.W.Crash("h1")
 			case "dead_host":
 				s.W.Crash("h1")
@@ -168,7 +169,7 @@ func TestVerifC05(t *testing.T) {
 		}
 		masterFixed := func(s *vSim) {
 			switch b.mcond {
-			case "dead_mysql":
+			case "dead_mysql", "crashrec_dead_mysql":
 				s.W.Restart("h1", false)
 				s.W.Lock()
 				s.W.Hosts["h1"].RO, s.W.Hosts["h1"].Offline = "rw", false
@@ -185,7 +186,7 @@ func TestVerifC05(t *testing.T) {
 		}
 		res := vRun(t, &sc, vRunOpts{
 			setup: func(s *vSim) {
-				if b.mcond == "crashrec" {
+				if b.mcond == "crashrec" || b.mcond == "crashrec_dead_mysql" {
 					dir := filepath.Join(s.dir, "h1")
 					os.MkdirAll(dir, 0o755)
 					os.WriteFile(filepath.Join(dir, "mysqld.pid"), []byte(fmt.Sprint(os.Getpid())), 0o644)
